@@ -310,7 +310,7 @@ class C02(Check):
             'names) x padding length (12 values incl. 0, 1, 63..65, page alignment) x record sequence (<=2 (quick) / <=3 '
             '(thorough) over 10 record kinds incl. records beginning with 1,2,7,8 zero bytes and, in '
             'non-first position, an all-zero record and records beginning with the version-2 / version-3 magic) x both entry points; plus all sequences of <=3 parses over 4 dumps through the same table '
-            'objects in 4 reuse modes (also after a parse that RAISED on a truncated dump), and with all generators created first and consumed afterwards (same parser via parse(), via parse_v2() directly, same facade); plus two parses ALIVE AT ONCE (3x3 dump pairs), their generators advanced in every interleaving; plus dumps of 2^k-1, 2^k, 2^k+1 records for k = 6..13; plus every combination of the header scalars (pointer-width flag {0,1,2,2^32-1} x tick frequency {0, 24 MHz, 2^64-1} x time of day {zeros, all-ones}) over 1..4 records whose timestamps use their top byte. Oracle: events == independent decode of each record; tables == file map (last wins), '
+            'objects in 4 reuse modes (also after a parse that RAISED on a truncated dump), and with all generators created first and consumed afterwards (same parser via parse(), via parse_v2() directly, same facade); plus two parses ALIVE AT ONCE (3x3 dump pairs), their generators advanced in every interleaving; plus dumps of 2^k-1, 2^k, 2^k+1 records for k = 6..13; plus every combination of the header scalars (pointer-width flag {0,1,2,2^32-1} x tick frequency {0, 24 MHz, 2^64-1} x time of day {zeros, all-ones}) over 1..5 records whose timestamps use their top byte or whose thread id has a mapped thread as its low half. Oracle: events == independent decode of each record; tables == file map (last wins), '
             'identity preserved, nothing left over. non-trivial = dump has >=1 record and >=1 map entry (or history length >=2). '
             'states = distinct table contents after a parse; transitions = parse calls.')
     assumptions = ('a first record of 64 zero bytes is indistinguishable from padding and is not generated first',
@@ -375,7 +375,8 @@ class C02(Check):
                         acc.violation('v2-events-not-in-file-order', {'kind': 'long', 'perm': list(perm), 'entry': entry}, {'err': err})
             # the header's scalar fields (pointer-width flag, tick frequency, time of day) say nothing about the records: every
             # combination x records whose timestamp uses its top byte
-            hrecs = [RECORDS['hi'], rec((1 << 64) - 1, (1, 2, 3, 4), 9, 0x040c0005), rec(0xff00000000000007, (0, 0, 0, 0), 1, 0x01400000, cpuid=3), rec(7, (5, 6, 7, 8), 2, 0x040c0006)]
+            hrecs = [RECORDS['hi'], rec((1 << 64) - 1, (1, 2, 3, 4), 9, 0x040c0005), rec(0xff00000000000007, (0, 0, 0, 0), 1, 0x01400000, cpuid=3), rec(7, (5, 6, 7, 8), 2, 0x040c0006),
+                     rec(8, (1, 1, 1, 1), (1 << 32) | ENTRIES[0][0], 0x040c0004)]     # a thread id whose low half is a thread of the map
             for is64 in (0, 1, 2, 0xffffffff):
                 for tick in (0, 24000000, (1 << 64) - 1):
                     for tod in (bytes(12), b'\xff' * 12):
